@@ -289,6 +289,9 @@ func oddNameBuilds(st *Stats) {
 					}
 				}
 			}
+			checkInputsClosure(func(what, scenario string, got, want interface{}) {
+				st.Fail(what, map[string]interface{}{"scenario": scenario, "label": label}, got, want)
+			}, root, entryPointsOf(root))
 			docLimit++
 			collectDoc(st, label, res.Metafile, !cs)
 			st.Note("odd-names", label, true)
